@@ -39,7 +39,7 @@ SPEC = {
                     "SortRecordIfNeeded (optional compaction repair) and the row-based record.SortHelper (log store) are not on the C02 paths and not checked"],
     "campaigns": [
         {"name": "layout_histories", "run": "^TestLayoutHistories$", "quick": B(4, 10, 900, steps=20, shrinktime="60s"),
-         "thorough": B(60, 14, 3400, steps=40, shrinktime="180s")},
+         "thorough": B(12, 14, 3400, steps=40, shrinktime="180s")},
         {"name": "lib_merge_pair", "run": "^TestLibMergePair$", "quick": B(40000, 2, 300, shrinktime="10s"), "thorough": B(1500000, 4, 1500)},
         {"name": "lib_cursor_merge", "run": "^TestLibCursorMerge$", "quick": B(40000, 2, 300, shrinktime="10s"), "thorough": B(2500000, 3, 1500)},
         {"name": "lib_sort_dedup", "run": "^TestLibSortDedup$", "quick": B(40000, 2, 300, shrinktime="10s"), "thorough": B(3000000, 3, 1500)},
